@@ -195,23 +195,26 @@ AXS = T.axioms('shape', 'pow2r', 'cscale')
 
 def stab_post(G, p0, thr, Q, p, vmax):
     """(Q, p) = core_stab(G, p0): below the threshold unchanged; otherwise G = 2^(p-p0) Q with p-p0 an integer and
-    max|Q| = max|G| / 2^(p-p0) in [1, 2)."""
+    max|Q| = max|G| / 2^(p-p0) in [1, 2).  G is a core or (mul_scalar) a matrix."""
     e = p - p0
     c = T.pow2r(z3.ToReal(e))
+    if G.sort() == T.Mat:
+        scaled, shape = T.smul(c, Q), z3.And(T.rows(Q) == T.rows(G), T.cols(Q) == T.cols(G))
+    else:
+        scaled, shape = T.cscale(c, Q), z3.And(T.d0(Q) == T.d0(G), T.d1(Q) == T.d1(G), T.d2(Q) == T.d2(G))
     return {
         'below-threshold-unchanged': z3.Implies(vmax <= thr, z3.And(Q == G, p == p0)),
-        'input-is-2^p-times-mantissa': z3.Implies(vmax > thr, T.cscale(c, Q) == G),
+        'input-is-2^p-times-mantissa': z3.Implies(vmax > thr, scaled == G),
         'mantissa-max-modulus-in-[1,2)': z3.Implies(vmax > thr, z3.And(vmax / c >= 1, vmax / c < 2)),
-        'shape-kept': z3.And(T.d0(Q) == T.d0(G), T.d1(Q) == T.d1(G), T.d2(Q) == T.d2(G)),
+        'shape-kept': shape,
     }
 
 
-@unit('core.core_stab', props=('C16', 'C04'))
-def u_core_stab(U):
+def _core_stab_unit(U, matrix):
     fn = U.func('core', 'core_stab')
     ex = U.executor(fn, axioms=AXS)
     st = U.state()
-    G, g = S.core_param('G')
+    G, g = S.mat_param('G') if matrix else S.core_param('G')
     p0, thr = z3.Int('p0'), z3.Real('thr')
     st.vars.update(G=G, p0=p0, thr=thr)
     res = U.run(ex, st, pre=[thr > 0])
@@ -233,24 +236,39 @@ def u_core_stab(U):
         for lbl, f in stab_post(g, p0, thr, Q.t, Z(pe), vmax).items():
             if lbl.startswith('mantissa'):
                 U.post(lbl, p, f, extra=hints)
+            elif lbl.startswith('input-is'):
+                # only the scaling laws: c * ((1/c) * G) = (c * (1/c)) * G = G   (the full axiom set drowns the instance)
+                U.post(lbl, p, f, axioms=T.axioms('smul') if matrix else AXS)
             else:
                 U.post(lbl, p, f, axioms=AXS)
     U.canary('canary-always-rescaled', U.pre, False, axioms=AXS)
 
 
+@unit('core.core_stab', props=('C16', 'C04'))
+def u_core_stab(U):
+    _core_stab_unit(U, False)
+
+
+@unit('core.core_stab.matrix', props=('C16',))
+def u_core_stab_matrix(U):
+    _core_stab_unit(U, True)
+
+
 def call_core_stab(ex, st, args, kwargs, node):
     G = st.deref(args[0])
     p0 = Z(ex.need_num(st, args[1], node)) if len(args) > 1 else z3.IntVal(0)
-    if not (isinstance(G, VArr) and G.ndim == 3 and G.t is not None):
-        raise M.Unsupported('core_stab on a non-core value')
+    is_core = isinstance(G, VArr) and G.ndim == 3 and G.t is not None and G.tag == 'core'
+    is_mat = isinstance(G, VArr) and G.ndim == 2 and G.t is not None and G.tag == 'mat'
+    if not (is_core or is_mat):
+        raise M.Unsupported('core_stab on a value that is neither a core nor a matrix')
     if not M.is_intsort(p0):
         ex.oblige(st, 'call-pre', 'core_stab: integer exponent', False, node)
-    q, p, vmax = ex.fresh('Qstab', T.Core), ex.fresh_int('pstab'), ex.fresh_real('vmax')
+    q, p, vmax = ex.fresh('Qstab', T.Core if is_core else T.Mat), ex.fresh_int('pstab'), ex.fresh_real('vmax')
     st.assume(vmax >= 0)
     for lbl, f in stab_post(G.t, p0, z3.RealVal('1e-100'), q, p, vmax).items():
         st.assume(f)
     st.ghost.setdefault('stab', []).append((G.t, q, p0, p))
-    return VTuple([M.mk_core(q), p])
+    return VTuple([M.mk_core(q) if is_core else M.mk_mat(q), p])
 
 
 M.CALLEES['core.core_stab'] = call_core_stab
